@@ -227,6 +227,10 @@ pub struct Case {
     /// open edition: NFT metadata mode (true = OnChainMetadata with an sg721-metadata-onchain collection)
     #[serde(default)]
     pub onchain: bool,
+    /// creation-time attach: instead of running `ops`, a second minter is created through the
+    /// world's factory at instant `at` with `whitelist` = the whitelist wls[0]
+    #[serde(default)]
+    pub create_at: Option<T>,
 }
 
 // ---------- Merkle trees as the two Merkle whitelists verify them ----------
@@ -913,6 +917,99 @@ fn wl_admin(w: &mut dyn World, wls: &mut Vec<WlInfo>, cop: &COp) -> (&'static st
     (kind.name(), accepted)
 }
 
+/// Creation-time attach.  The property: "a whitelist can only be attached ... never while the
+/// current or the new whitelist is active".  A minter is created through the factory with
+/// `init_msg.whitelist` = a whitelist that is not started / active / ended at that instant; a
+/// creation that succeeds with an active whitelist is reported, and a member's mint before
+/// the public start on the minter so created is tried as well.
+fn run_create_probe(c: &Case, at_: T, res: &mut CaseResult) {
+    let vname = c.fam.name();
+    let spec = &c.wls[0];
+    // a world of the same family gives the chain, the stored codes and the factory
+    let (mut app, factory, code, t0) = if c.fam.oe {
+        match OeWorld::new(OeCfg::basic(c.fam.variant)) {
+            Ok(w) => {
+                let code = w.wl_code[spec.kind.code_key()];
+                (w.app, w.factory, code, w.t0)
+            }
+            Err(_) => return,
+        }
+    } else {
+        match SaleWorld::new(SaleCfg::basic(c.fam.variant)) {
+            Ok(w) => {
+                let code = w.wl_code[spec.kind.code_key()];
+                (w.app, w.factory, code, w.t0)
+            }
+            Err(_) => return,
+        }
+    };
+    let abs = |t: T| (t0 as i128 + t.ns()) as u64;
+    let windows: Vec<(u64, u64)> = spec.stages.iter().map(|s| (abs(s.start), abs(s.end))).collect();
+    let (msg, fee) = wl_msg(spec, &windows);
+    let Ok(wl) = instantiate_wl(&mut app, code, &msg, fee) else { return };
+    let info = WlInfo { spec: spec.clone(), addr: wl.clone(), windows, added: BTreeSet::new() };
+    chain::set_time(&mut app, abs(at_));
+    let now = chain::now(&app);
+    let Some(params) = q(&app, factory.as_str(), json!({"params": {}})) else { return };
+    let sg721 = params["params"]["allowed_sg721_code_ids"][0].clone();
+    let cfee: u128 = params["params"]["creation_fee"]["amount"].as_str().and_then(|x| x.parse().ok()).unwrap_or(0);
+    let start = now + START * NS;
+    let collection = json!({"code_id": sg721, "name": "Collection2", "symbol": "COL2",
+        "info": {"creator": CREATOR, "description": "d", "image": "https://example.com/image.png",
+                 "external_link": "https://example.com/external.html", "explicit_content": false,
+                 "start_trading_time": null, "royalty_info": {"payment_address": CREATOR, "share": "0.1"}}});
+    let init = if c.fam.oe {
+        json!({"nft_data": {"nft_data_type": "off_chain_metadata", "extension": null,
+                            "token_uri": "ipfs://bafybeigi3bwpvyvsmnbj46ra4hyffcxdeaj6ntfk5jpic5mx27x6ih2qvq/images/1.png"},
+               "payment_address": null, "start_time": ts(start), "end_time": ts(start + 5000 * NS), "num_tokens": 5,
+               "mint_price": coinv(PUB, NATIVE), "per_address_limit": 3, "whitelist": wl.to_string()})
+    } else {
+        json!({"base_token_uri": "ipfs://bafybeigi3bwpvyvsmnbj46ra4hyffcxdeaj6ntfk5jpic5mx27x6ih2qvq/images",
+               "payment_address": null, "start_time": ts(start), "num_tokens": 10,
+               "mint_price": coinv(PUB, NATIVE), "per_address_limit": 3, "whitelist": wl.to_string()})
+    };
+    let create = json!({"create_minter": {"init_msg": init, "collection_params": collection}});
+    let funds = if cfee > 0 { vec![coin(cfee, NATIVE)] } else { vec![] };
+    let active_ledger = info.active_stage(now);
+    let active_q = q(&app, wl.as_str(), json!({"is_active": {}})).and_then(|v| v["is_active"].as_bool());
+    let r = chain::exec(&mut app, CREATOR, &factory, &create, &funds);
+    let state = if active_ledger.is_some() { "active" } else if now < info.windows[0].0 { "not-started" } else { "ended" };
+    *res.hist.entry(format!("{}+{}:create_with_whitelist_{}:{}", vname, spec.kind.name(), state, if r.is_ok() { "ok" } else { "err" })).or_insert(0) += 1;
+    res.wl_ops += 1;
+    if active_q != Some(active_ledger.is_some()) {
+        res.violations.push(("C04:whitelist-activity-vs-window".into(), format!("{}: {} whitelist windows {:?} at {}: IsActive={:?}", vname, spec.kind.name(), info.windows, now, active_q), 0));
+    }
+    if r.is_ok() && (active_ledger.is_some() || active_q == Some(true)) {
+        // the new minter is the newest contract that answers Config with this whitelist
+        let mut minted = String::new();
+        for n in (0..60).rev() {
+            let a = format!("contract{}", n);
+            if let Some(cfg) = q(&app, &a, json!({"config": {}})) {
+                if cfg.get("sg721_address").is_some() && cfg["whitelist"].as_str() == Some(wl.as_str()) {
+                    let st = active_ledger.unwrap_or(0);
+                    let member = spec.stages[st].members.first().cloned().unwrap_or_else(|| M1.to_string());
+                    let price = spec.stages[st].price;
+                    let mm = if c.fam.merkle() {
+                        let (sg, al) = spec.leaf_args(st);
+                        let proof = if spec.kind.merkle() { Some(spec.proof(st, &member)) } else { None };
+                        json!({"mint": {"stage": sg, "proof_hashes": proof, "allocation": if spec.kind.merkle() { al } else { None }}})
+                    } else {
+                        json!({"mint": {}})
+                    };
+                    let mr = chain::exec(&mut app, &member, &Addr::unchecked(a.clone()), &mm, &[coin(price, NATIVE)]);
+                    minted = format!("; on the minter so created ({}) member {} minting with {} at {}, {} ns before the public start: {}", a, member, price, now, start - now, if mr.is_ok() { "succeeded" } else { "failed" });
+                    break;
+                }
+            }
+        }
+        res.violations.push((
+            "C04:created-with-active-whitelist".into(),
+            format!("{}: create_minter with whitelist {} ({} whitelist, windows {:?}) succeeded at {} while that whitelist is active (IsActive={:?}){}", vname, wl, spec.kind.name(), info.windows, now, active_q, minted),
+            0,
+        ));
+    }
+}
+
 pub fn run_case(c: &Case) -> CaseResult {
     let mut res = CaseResult {
         coq: None,
@@ -925,6 +1022,10 @@ pub fn run_case(c: &Case) -> CaseResult {
         wl_ops: 0,
     };
     let vname = c.fam.name();
+    if let Some(at_) = c.create_at {
+        run_create_probe(c, at_, &mut res);
+        return res;
+    }
     let mut wb = match new_world(c) {
         Ok(w) => w,
         Err(e) => {
@@ -1511,7 +1612,7 @@ fn block(fam: Fam, spec: Option<&WlSpec>, now: T, airdrop: bool) -> Vec<COp> {
 }
 
 fn base_case(label: String, fam: Fam, wls: Vec<WlSpec>, ops: Vec<COp>) -> Case {
-    Case { label, fam, num_tokens: if fam.oe { 40 } else { 24 }, pal: 3, price: PUB, start_in: START, end_in: if fam.oe { Some(END) } else { None }, wls, ops, onchain: false }
+    Case { label, fam, num_tokens: if fam.oe { 40 } else { 24 }, pal: 3, price: PUB, start_in: START, end_in: if fam.oe { Some(END) } else { None }, wls, ops, onchain: false, create_at: None }
 }
 
 /// one history per boundary instant of the shape: the same block at t-1ns, t, t+1ns
@@ -2140,6 +2241,72 @@ fn random_wl_op(rng: &mut Rng) -> COp {
     }
 }
 
+/// creation-time attach: the factory creates the minter with a whitelist that is not started /
+/// starts this very instant / is running / is at its end instant / has ended
+fn create_cases(fam: Fam, kind: Kind) -> Vec<Case> {
+    let spec = WlSpec {
+        kind,
+        stages: vec![StageSpec { start: T(100, 0), end: T(10000, 0), price: 60, members: vec![M1.to_string()], stage_limit: None }],
+        limit: 5,
+        leaf_fmt: 0,
+        extra_lists: vec![],
+        short_lists: 0,
+    };
+    [("not-started", T(100, -1)), ("at-start", T(100, 0)), ("running", T(5000, 0)), ("at-end-1ns", T(10000, -1)), ("at-end", T(10000, 0)), ("ended", T(10000, 1))]
+        .iter()
+        .map(|(nm, t)| {
+            let mut c = base_case(format!("create:{}:{}:{}", fam.name(), kind.name(), nm), fam, vec![spec.clone()], vec![]);
+            c.create_at = Some(*t);
+            c
+        })
+        .collect()
+}
+
+/// population probes: one AddMembers and one RemoveMembers message of `n` entries each, the
+/// tracked buyers placed first, at index 99, at index 100 and last; a removed member is gone
+fn population_cases(fam: Fam, kind: Kind, sizes: &[usize]) -> Vec<Case> {
+    let mut v = vec![];
+    if kind.merkle() {
+        return v;
+    }
+    for n in sizes {
+        let n = *n;
+        let mut list: Vec<String> = (0..n).map(|i| format!("filler{}x{:03}", n, i)).collect();
+        let mut pos: Vec<usize> = vec![0, 99, 100, n - 1].into_iter().filter(|p| *p < n).collect();
+        pos.sort();
+        pos.dedup();
+        let tracked = [M2, NM, STRANGER, PAYADDR];
+        for (k, p_) in pos.iter().enumerate() {
+            list[*p_] = tracked[k].to_string();
+        }
+        let spec = WlSpec {
+            kind,
+            stages: vec![StageSpec { start: T(1000, 0), end: T(2000, 0), price: 60, members: vec![M1.to_string()], stage_limit: None }],
+            limit: 5,
+            leaf_fmt: 0,
+            extra_lists: vec![],
+            short_lists: 0,
+        };
+        let mut ops = vec![
+            attach(CREATOR, 0),
+            at(T(500, 0)),
+            COp::WlAdd { who: CREATOR.into(), slot: 0, stage: 0, members: list.clone() },
+            COp::WlRemove { who: CREATOR.into(), slot: 0, stage: 0, members: list.clone() },
+            at(T(1000, 0)),
+        ];
+        for who in [M1, M2, NM, STRANGER, PAYADDR] {
+            ops.push(mint(who, 60));
+        }
+        // and the other way round: a big addition must reach its last entry
+        ops.push(COp::WlAdd { who: CREATOR.into(), slot: 0, stage: 0, members: list.clone() });
+        for who in [M2, NM, STRANGER, PAYADDR] {
+            ops.push(mint(who, 60));
+        }
+        v.push(base_case(format!("population:{}:{}:{}", fam.name(), kind.name(), n), fam, vec![spec], ops));
+    }
+    v
+}
+
 /// structured random histories: the clock jumps between boundary instants (+-1ns) of the
 /// case's own schedule; mints, schedule updates and whitelist changes in any order
 fn random_case(rng: &mut Rng, fam: Fam, n: usize, lits: &[u128]) -> Case {
@@ -2319,6 +2486,23 @@ fn corpus(thorough: bool, rng: &mut Rng) -> Vec<Case> {
                 }
             }
             v.extend(overlap_cases(fam, *kind));
+            v.extend(create_cases(fam, *kind));
+            if !(fam.merkle() && kind.tiered() && !kind.merkle()) {
+                let rot = thorough || ki == fi % kinds.len();
+                let mut sizes: Vec<usize> = if rot { vec![99, 100, 101, 150] } else { vec![101, 150] };
+                if thorough {
+                    // sizes next to the literals of the whitelist sources (pagination limits)
+                    for l in harvest_literals(&["contracts/whitelists/whitelist/src/contract.rs", "contracts/whitelists/tiered-whitelist/src/contract.rs",
+                        "contracts/whitelists/whitelist-flex/src/contract.rs", "contracts/whitelists/tiered-whitelist-flex/src/contract.rs"]) {
+                        for x in [l.saturating_sub(1), l, l + 1] {
+                            if x >= 20 && x <= 220 && !sizes.contains(&(x as usize)) {
+                                sizes.push(x as usize);
+                            }
+                        }
+                    }
+                }
+                v.extend(population_cases(fam, *kind, &sizes));
+            }
             // a Merkle vending minter cannot serve the members of a list tiered whitelist at all (see the observation)
             if !(fam.merkle() && kind.tiered() && !kind.merkle()) {
                 v.extend(wl_admin_cases(fam, *kind, thorough || ki == fi % kinds.len()));
